@@ -186,6 +186,15 @@ func genSeqPlan(prop string, seed uint64, tier string) *Plan {
 			c.DataFileMax = c.BodyMax + r.Pick64(1024, 2048, 4096)
 		}
 		c.NoGCDays = 0
+	case "C09":
+		w.set = 60
+		w.del = 10
+		w.incr = 5
+		w.advance = 8
+		w.get, w.mget, w.meta, w.meta2 = 5, 1, 2, 2
+		nOps = r.Range(3, 45)
+		c.DataFileMax = r.Pick64(4096, 16384, 65536, 1<<20)
+		c.BodyMax = r.Pick64(512, 2048, 16384)
 	case "C17":
 		w.restart = 1
 		w.gc = 12
@@ -323,6 +332,10 @@ func genSeqPlan(prop string, seed uint64, tier string) *Plan {
 			op.D = r.Pick64(1000, 2000, 6000, 61000, 3600*1000, 86400*1000*2)
 			if prop == "C17" {
 				op.D = r.Pick64(2000, 3600*1000, 86400*1000, 86400*1000*2, 86400*1000*8, 86400*1000*31)
+			}
+			if prop == "C09" {
+				// spread record timestamps over the uint32 range
+				op.D = r.Pick64(1000, 86400*1000, 86400*1000*365, 86400*1000*365*5, 86400*1000*365*20)
 			}
 		case "restart":
 			if restarts >= 5 {
